@@ -585,7 +585,13 @@ func c07MutKinds(muts []simnode.Mut) string {
 }
 
 func (s *c07Scenario) judge(tag string, muts []simnode.Mut) {
-XX
+	c := s.c
+	r := s.run(tag, muts)
+	if r.timedOut {
+		return
+	}
+	c.Obs("get_calls", 1)
+	client := "caching"
 	if tag != "" {
 		client = "nocache"
 	}
